@@ -473,9 +473,11 @@ def x_start_thread(eng, st, a):
     st2 = st
     o, off = eng.resolve(st2, a[1], 8, True)
     o = st2.wobj(o); o.data[off:off + 8] = int_cells(0, 8)
-    # std::thread::id of the new thread
+    # std::thread::id of the new thread (an ordinary store of the spawning thread: an event if the std::thread object lives in
+    # memory that is declared shared)
+    eng.mem_write(st2, a[0], int_cells(k, 8))
     o, off = eng.resolve(st2, a[0], 8, True)
-    o = st2.wobj(o); o.data[off:off + 8] = int_cells(k, 8)
+    o = st2.wobj(o); o.data[off:off + 8] = int_cells(k, 8)        # join()/detach() of the models read the id from here
 
 
 @ext('_ZNSt6thread4joinEv')
@@ -485,6 +487,16 @@ def x_thread_join(eng, st, a):
     if k == 0:
         eng.throw_std(st, '_ZTISt12system_error', 'join on a non-joinable thread')
     eng.mt._ev(st, Ev(st.ext.get('tid', 0), 'join', 0, 0, None, None, eng.where(st)[:120], aux=k))
+    o = st.wobj(o); o.data[off:off + 8] = int_cells(0, 8)
+
+
+@ext('_ZNSt6thread6detachEv')
+def x_thread_detach(eng, st, a):
+    # the thread keeps running on its own: no ordering event, the std::thread object stops being joinable
+    o, off = eng.resolve(st, a[0], 8, False)
+    k = cells_int(o.data[off:off + 8])
+    if k == 0:
+        eng.throw_std(st, '_ZTISt12system_error', 'detach on a non-joinable thread')
     o = st.wobj(o); o.data[off:off + 8] = int_cells(0, 8)
 
 
